@@ -267,3 +267,71 @@ def tier_arg(argv):
     if tier not in ("quick", "thorough"):
         tier = "quick"
     return tier
+
+
+def drive(binary, reqs, leaks=False, timeout=900, args=(), env=None):
+    """feed JSON requests (each with a unique integer 'n') to a line-oriented harness; the harness prints 'BEGIN n' before and one
+    JSON line {'n':..} after each.  A crash is attributed to the request whose BEGIN was last seen; the worker is restarted
+    after it.  returns (responses {n: obj}, crashes [(req, info)])"""
+    todo = list(reqs)
+    resp, crashes = {}, []
+    while todo:
+        data = "\n".join(json.dumps(r, ensure_ascii=False) for r in todo) + "\n"
+        r = run_proc([binary] + list(args), stdin=data, timeout=timeout, leaks=leaks, env=env)
+        cur = None
+        extra = {}
+        for l in r["out"].splitlines():
+            if l.startswith("BEGIN "):
+                try:
+                    cur = int(l[6:].split()[0])
+                except ValueError:
+                    pass
+            elif l.startswith("{"):
+                try:
+                    o = json.loads(l)
+                except Exception:
+                    continue
+                if "n" in o and o["n"] is not None and "crash_input" not in o:
+                    resp[o["n"]] = o
+                    if o["n"] == cur:
+                        cur = None
+                else:
+                    extra.update(o)
+        if r["rc"] == 0 and not r["timed_out"]:
+            break
+        idx = {q["n"]: i for i, q in enumerate(todo)}
+        info = {"rc": r["rc"], "stderr": r["err"][-8000:], "timed_out": r["timed_out"]}
+        info.update(extra)
+        if cur is not None and cur in idx:
+            crashes.append((todo[idx[cur]], info))
+            todo = todo[idx[cur] + 1:]
+        else:
+            done = [q for q in todo if q["n"] in resp]
+            if len(done) == len(todo):
+                # died at exit (e.g. LeakSanitizer): not attributable to one request
+                crashes.append(({"n": None, "batch": [q["n"] for q in todo][:3]}, info))
+                break
+            raise HarnessFailure("harness %s died outside a request: rc=%s\n%s" % (binary, r["rc"], r["err"][-3000:]))
+    return resp, crashes
+
+
+def chunked(seq, n):
+    k = max(1, (len(seq) + n - 1) // n)
+    return [seq[i:i + k] for i in range(0, len(seq), k)]
+
+
+def drive_parallel(binary, reqs, jobs=None, **kw):
+    jobs = jobs or NPROC
+    parts = chunked(reqs, jobs * 2) if len(reqs) > jobs * 2 else [[r] for r in reqs]
+    res = pmap(lambda p: drive(binary, p, **kw), parts, jobs)
+    resp, crashes = {}, []
+    for a, b in res:
+        resp.update(a)
+        crashes += b
+    return resp, crashes
+
+
+def crash_sig(info):
+    if info.get("timed_out"):
+        return "timeout"
+    return san_signature(info.get("stderr", "")) or "abnormal-exit rc=%s" % info.get("rc")
